@@ -226,6 +226,12 @@ def probe(binary, hooks, cfg, orig_port, logfile):
             q(c1, "MODE #maintopic +I", "invexlist")
             q(c1, "JOIN #q1", "join-1")
             q(c1, "JOIN #q2", "join-2")
+            q(c1, "JOIN #q3,#q4,#q5,#q6,#q7", "join-list")
+            wl = q(c1, "WHOIS probe1", "whois-after-joins")
+            nch = sum(len(m.params[-1].split()) for m in wl if m.verb == "319")
+            if isinstance(cfg.get("max_joins"), int):
+                # "Maximal number of channels that user can join."
+                obs.append(("assert:channels-joined<=max_joins", nch <= cfg["max_joins"]))
         # a configured ("registered") user
         c2, burst2 = reg("probe2", "matszpk", PW["user"])
         obs.append(("configured-user", twin.normalise([m for m in burst2 if m.verb in ("001", "221", "464")
@@ -322,7 +328,9 @@ def _key_effect_job(args):
         o1 = probe(binary, hooks, pert, port, logfile)
         diffs = [a[0] for a, b in zip(o0, o1) if a != b] + (["length"] if len(o0) != len(o1) else [])
         base_ok = dict(o0).get("listening-on-documented-address") is True
+        broken = [a[0] for a in o0 + o1 if isinstance(a[0], str) and a[0].startswith("assert:") and a[1] is False]
         return dict(path=path, status="effect" if diffs else "no-effect", differs_in=diffs[:6], base_ok=base_ok,
+                    broken_assertions=sorted(set(broken)),
                     old=repr(get(base, path))[:60], new=repr(get(pert, path))[:60],
                     framing=dict(o0).get("framing"))
     finally:
